@@ -9,6 +9,7 @@ mod jws_storage;
 mod c11;
 mod c12;
 mod c13;
+mod c14;
 mod c17;
 mod c18;
 mod c19;
@@ -34,6 +35,7 @@ fn props() -> Vec<Prop> {
     Prop { id: "C11", exec: c11::exec, classify: no_class, gen: c11::gen },
     Prop { id: "C12", exec: c12::exec, classify: no_class, gen: c12::gen },
     Prop { id: "C13", exec: c13::exec, classify: no_class, gen: c13::gen },
+    Prop { id: "C14", exec: c14::exec, classify: no_class, gen: c14::gen },
     Prop { id: "C17", exec: c17::exec, classify: no_class, gen: c17::gen },
     Prop { id: "C18", exec: c18::exec, classify: no_class, gen: c18::gen },
     Prop { id: "C19", exec: c19::exec, classify: no_class, gen: c19::gen },
